@@ -105,6 +105,25 @@ func c11Alphabet() map[string]func(i int) c11Elem {
 		"lf-line20k": func(i int) c11Elem {
 			return c11Elem{Name: "lf-line20k", Msg: c11Base(i, []WHdr{c11Line(20 * 1024)}, []byte("after long line")), LF: true}
 		},
+		// Content-Length = 1*DIGIT: leading zeros are legal
+		"cl-010": func(i int) c11Elem {
+			m := c11Base(i, nil, []byte("0123456789"))
+			for k := range m.Hdrs {
+				if m.Hdrs[k].Name == "Content-Length" {
+					m.Hdrs[k].Value = "010"
+				}
+			}
+			return c11Elem{Name: "cl-010", Msg: m}
+		},
+		"cl-0008": func(i int) c11Elem {
+			m := c11Base(i, nil, []byte("01234567"))
+			for k := range m.Hdrs {
+				if m.Hdrs[k].Name == "Content-Length" {
+					m.Hdrs[k].Name, m.Hdrs[k].Value = "l", "0008"
+				}
+			}
+			return c11Elem{Name: "cl-0008", Msg: m}
+		},
 		"body60k":  func(i int) c11Elem { return c11Elem{Name: "body60k", Msg: c11Base(i, nil, big)} },
 		"body4096": func(i int) c11Elem { return c11Elem{Name: "body4096", Msg: c11Base(i, nil, big[:4096])} },
 	}
@@ -287,7 +306,7 @@ func c11E2E(elems []c11Elem, stream []byte, cuts []int) (string, string) {
 }
 
 func c11Run(c *Ctx) {
-	short := []string{"nobody", "small", "tiny", "siplike", "crlfbody", "lf", "keepalive", "ka3-tiny"}
+	short := []string{"nobody", "small", "tiny", "siplike", "crlfbody", "lf", "keepalive", "ka3-tiny", "cl-010", "cl-0008"}
 	long := []string{"line4094", "line4095", "line4096", "line4097", "line4098", "line8192", "line20k", "body60k", "body4096", "lf-line4096", "lf-line4097", "lf-line4098", "lf-line8192", "lf-line20k"}
 	var streams [][]string
 	for _, a := range short {
@@ -428,7 +447,7 @@ func c11Run(c *Ctx) {
 
 func init() {
 	addCheck(&Check{ID: "C11", Level: "exploration",
-		Rule:   "streams of 1-3 (thorough 1-5, plus a fixed 8-message stream) messages over an alphabet of 22 shapes (no body, small body, SIP-like body, body starting with CRLF, LF-only line ends, 0-3 CRLF keep-alives, header lines of 4094..4098 / 8190..8194 / 20480 bytes ended by CRLF and by a bare LF, bodies of 4096 B and 60 KiB) through the REAL TCPServerTransport.receiveMessage on a simulated connection; segmentations: none, 1-byte segments, ALL single cuts and ALL pairs of cuts for streams up to 700 B (thorough 1500 B), for longer streams all single cuts (or all within +-3 of every line end, body boundary and 4096-multiple) and all pairs of those marks; plus the single cuts end-to-end through a full proxy to a TCP backend; non-trivial = at least one cut",
+		Rule:   "streams of 1-3 (thorough 1-5, plus a fixed 8-message stream) messages over an alphabet of 24 shapes (no body, Content-Length written with leading zeros, small body, SIP-like body, body starting with CRLF, LF-only line ends, 0-3 CRLF keep-alives, header lines of 4094..4098 / 8190..8194 / 20480 bytes ended by CRLF and by a bare LF, bodies of 4096 B and 60 KiB) through the REAL TCPServerTransport.receiveMessage on a simulated connection; segmentations: none, 1-byte segments, ALL single cuts and ALL pairs of cuts for streams up to 700 B (thorough 1500 B), for longer streams all single cuts (or all within +-3 of every line end, body boundary and 4096-multiple) and all pairs of those marks; plus the single cuts end-to-end through a full proxy to a TCP backend; non-trivial = at least one cut",
 		Assume: []string{"a short read equals an additional cut, so cuts subsume short reads; coalescing of queued segments is the no-cut case"},
 		Run:    c11Run,
 		Replay: func(c *Ctx, raw json.RawMessage) string {
